@@ -128,8 +128,29 @@ func HarnessC06PhoutLine() {
 }
 
 // C04/W4: the discarded sample carries net code 777, tag "discarded", proto code 0.
+// 0-2 samples of fired requests (any tag, codes, sizes, id) have been written and released to the
+// sample pool before, as the phout aggregator does with every line it wrote: the discarded sample
+// carries nothing of them.
 func HarnessC04DiscardedSample() {
+	recycled := int(vConcretize(vNondetInt("recycled", 0, 2)))
+	for i := 0; i < recycled; i++ {
+		old := Acquire([]string{"t", ""}[vConcretize(vNondetInt("oldtag", 0, 1))])
+		old.SetID(uint64(vNondetInt("oldid", 0, 9)))
+		old.SetProtoCode(int(vNondetInt("oldproto", 0, 599)))
+		old.set(keyRequestBytes, int(vNondetInt("oldreq", 0, 99)))
+		old.set(keyRTTMicro, int(vNondetInt("oldrtt", 0, 99)))
+		if vNondetBool("olderr") {
+			old.SetUserNet(int(vNondetInt("oldnet", 1, 999)))
+		}
+		releaseSample(old)
+	}
 	s := DiscardedShootSample()
+	vCheck("W4.id.0", s.ID() == 0)
+	for k := 0; k < fieldsNum; k++ {
+		if k != keyErrno {
+			vCheck("W4.other.fields.0", s.get(k) == 0)
+		}
+	}
 	vCheck("W4.tag", s.Tags() == "discarded")
 	vCheck("W4.net.777", s.get(keyErrno) == 777)
 	vCheck("W4.proto.0", s.ProtoCode() == 0)
